@@ -25,12 +25,35 @@ Positions(p, line, i) ==
 ScoreStr(s) == s.kind \o " " \o s.v
 AbsInt(x) == IF x < 0 THEN -x ELSE x
 
+(***************************************************************************)
+(* Forced mates.  The harness' candidate search hands over a certificate:  *)
+(* the attacker's move, and for EVERY legal reply the next certificate.    *)
+(* TLC verifies it with its own move generator (every reply must be        *)
+(* covered, every line must end in checkmate within n attacker moves);     *)
+(* only a verified certificate creates a demand on the engine.             *)
+(***************************************************************************)
+RECURSIVE VerifyAtt(_, _, _), VerifyDef(_, _, _)
+VerifyAtt(p, c, n) ==
+  LET cand == {m \in Legal(p) : Uci(m) = c.m}
+  IN cand # {} /\ VerifyDef(Apply(p, CHOOSE m \in cand : TRUE), c.r, n)
+VerifyDef(q, rs, n) ==
+  LET L == Legal(q)
+  IN IF L = {} THEN InCheck(q.bd, q.stm)
+     ELSE n > 1 /\ \A m \in L : \E i \in 1 .. Len(rs) : rs[i].u = Uci(m) /\ VerifyAtt(Apply(q, m), rs[i].c, n - 1)
+\* without a certificate (only when the candidate search claims the engine's move throws the mate away): exhaustive
+RECURSIVE BruteAtt(_, _), BruteDef(_, _)
+BruteAtt(p, n) == \E m \in Legal(p) : BruteDef(Apply(p, m), n)
+BruteDef(q, n) ==
+  LET L == Legal(q)
+  IN IF L = {} THEN InCheck(q.bd, q.stm) ELSE n > 1 /\ \A m \in L : BruteAtt(Apply(q, m), n - 1)
+
 \* NOTE on evaluation cost: inside an action TLC re-evaluates a LET definition at every reference, but an operator
 \* ARGUMENT is evaluated once.  Everything expensive is therefore passed down as an argument.
 GoJudge(hist, p, EV, sm, d, plain, rp, got, child, line, lo, hi) ==
   LET v == rp[1]
       deep == Ev.mode = "deeprep"
-      free == Ev.mode = "free"          \* no reference value for this search: only what holds for every search is demanded
+      mate == Ev.mode = "mate"          \* lo: the certificate of a forced mate in Ev.n verifies; hi: the position after the best move is still a forced mate
+      free == Ev.mode \in {"free", "mate"}          \* no reference value for this search: only what holds for every search is demanded
       gotv == IF got.kind = "cp" THEN (IF Ch(got.v, 1) = "-" THEN -ParseNat(SubSeq(got.v, 2, Len(got.v))) ELSE ParseNat(got.v)) ELSE 0
       missing == AbsInt(v) > 1200000
       exp == ToUciScore(v)
@@ -49,6 +72,12 @@ GoJudge(hist, p, EV, sm, d, plain, rp, got, child, line, lo, hi) ==
               IF missing /\ ~isRep THEN ToString(Keys(p, d) \ EV.d) ELSE "">>,
             <<isRep => repOk, "C10", "line reaching a threefold repetition must be scored as a draw (+- contempt " \o ToString(c) \o "): " \o ScoreStr(got),
               "cp " \o ToString(c)>>,
+            <<(mate /\ ~lo) => FALSE, "X-cert", "the candidate search's certificate of a forced mate does not verify against the specification's move generator (no demand made)", "">>,
+            <<(mate /\ lo) => (mateN >= 1 /\ mateN <= Ev.n), Prop,
+              "the side to move can force mate in " \o ToString(Ev.n) \o " (certificate verified reply by reply: " \o ToString(Ev.cert.m) \o " ...), yet go depth " \o ToString(d)
+                \o " on " \o RenderFen(p) \o " reports " \o ScoreStr(got), "mate " \o ToString(Ev.n)>>,
+            <<(mate /\ lo /\ mateN >= 1) => hi, Prop,
+              "the move played, " \o Ev.best \o ", does not keep the forced mate in " \o ToString(Ev.n) \o " on " \o RenderFen(p), ToString(Ev.cert.m)>>,
             <<deep => lo, "C10", "machinery: the case is not a forced cycle completing a threefold repetition at ply 4", "">>,
             <<(deep /\ lo) => ((got.kind = "mate" /\ Ch(got.v, 1) # "-") \/ (got.kind = "cp" /\ gotv >= -c)), "C10",
               "the side to move can force a threefold repetition within the searched depth (every reply on the cycle is forced), yet go depth " \o ToString(d) \o
@@ -63,7 +92,8 @@ GoJudge(hist, p, EV, sm, d, plain, rp, got, child, line, lo, hi) ==
             <<Ev.flipof = 0 \/ (prevGo.fen = RenderFen(Flip(PosOfFen(Ev.fen))) /\ prevGo.score = got), "C11",
               "score on the colour-flipped twin differs: " \o ScoreStr(got) \o " vs " \o ToString(prevGo.score), ToString(prevGo.score)>> >>)
      /\ prevGo' = [fen |-> Ev.fen, score |-> got]
-     /\ ntr' = IF d >= 2 \/ got.kind = "mate" \/ isRep \/ deep \/ (Ev.mode = "fifty" /\ p.hmc >= 90) THEN ntr \cup {l} ELSE ntr
+     /\ ntr' = IF mate THEN (IF lo THEN ntr \cup {l} ELSE ntr)
+               ELSE IF d >= 2 \/ got.kind = "mate" \/ isRep \/ deep \/ (Ev.mode = "fifty" /\ p.hmc >= 90) THEN ntr \cup {l} ELSE ntr
 
 \* cyc = positions along the four cycle moves from the root: both replies of the opponent are the only legal moves, and the
 \* position reached has then occurred three times inside the reversible window
@@ -77,14 +107,16 @@ GoWith(hist, EV) ==
       sm == ToS(Ev.searchmoves)
       plain == Ev.ref # "ab"
       deep == Ev.mode = "deeprep"
-      noref == Ev.mode \in {"deeprep", "free"}
+      noref == Ev.mode \in {"deeprep", "free", "mate"}
+      mate == Ev.mode = "mate"
+      after == Positions(p, <<Ev.best>>, 1)
   IN GoJudge(hist, p, EV, sm, Ev.d, plain,
              IF noref THEN <<0, {}>> ELSE IF plain THEN RootPlain(EV, p, Ev.d, sm) ELSE <<RootAB(EV, p, Ev.d, sm), {}>>,
              [kind |-> Ev.score.kind, v |-> Ev.score.v],
              IF Len(Ev.searchmoves) = 1 THEN Positions(p, Ev.searchmoves, 1) ELSE <<p>>,
              Positions(p, Ev.pv, 1),
-             IF deep THEN ForcedCycle(hist, Positions(p, Ev.cycle, 1)) ELSE FALSE,
-             0)
+             IF deep THEN ForcedCycle(hist, Positions(p, Ev.cycle, 1)) ELSE IF mate THEN VerifyAtt(p, Ev.cert, Ev.n) ELSE FALSE,
+             IF mate /\ Len(after) = 2 THEN ((Ev.has2 /\ VerifyDef(after[2], Ev.cert2, Ev.n)) \/ BruteDef(after[2], Ev.n)) ELSE FALSE)
 
 GoDepth ==
   /\ Ev.ev = "godepth"
